@@ -193,6 +193,9 @@ def f_arrayGet(args):
     return a[int(i)]
 
 
+KEPT = [None]     # the reference's copy of the global array gKept for the current run (set by the C15 engine)
+
+
 def pred_value(x):
     """The simulated match function hostPred(value): a pure function of the element, answering with values of
     every truthiness class (the documentation says 'f(value) -> bool'; the language's truthiness applies)."""
@@ -225,7 +228,7 @@ def truthy(v):
 
 def _index_of(args, last):
     a, v, i = check(args, [(A, 'req'), (None, 'req'), (N, 'optnull' if last else ('opt', 0))], -1)
-    if isinstance(v, Opaque) and v.kind == 'pred':
+    if isinstance(v, Opaque) and v.kind in ('pred', 'pred:keep'):
         if i is None:
             i = len(a) - 1
             if i < 0:
@@ -234,6 +237,10 @@ def _index_of(args, last):
             raise Fail(-1)
         rng = range(int(i), -1, -1) if last else range(int(i), len(a))
         for k in rng:
+            if v.kind == 'pred:keep' and KEPT[0] is not None:
+                # the script match function fnKeep(vals...) keeps its argument array: one NEW one-element array per
+                # element visited, holding that element itself
+                KEPT[0].append([a[k]])
             if truthy(pred_value(a[k])):
                 return k
         return -1
